@@ -7,4 +7,5 @@ if [ "$1" = "--replay" ]; then
 fi
 id="$1"; tier="${2:-quick}"
 [ -x bin/govc ] || ./setup.sh >/dev/null
-exec ./bin/govc check --property "$id" --tier "$tier"
+# GOVC_REPO (optional): verify another copy of the repository (self-tests on scratch clones); default /repo
+exec ./bin/govc check --property "$id" --tier "$tier" ${GOVC_REPO:+--repo "$GOVC_REPO"}
